@@ -665,3 +665,69 @@ Proof.
   - intros H. inversion H; subst. exact I.
   - contradiction.
 Qed.
+
+(* exactness of the composition under rewind_mode::required *)
+Lemma crlf_exact e c :
+  crlf (eol_ch e) c =
+    if starts_with [13; 10] (rest c) then Res Ok (advance (eol_ch e) 2 c) [] else Res Fail c [].
+Proof.
+  unfold crlf, starts_with, in_size. destruct (rest c) as [|a [|b tl]] eqn:E.
+  - reflexivity.
+  - cbn [length Nat.leb firstn eqb_bytes]. destruct (13 =? a); reflexivity.
+  - cbn [length Nat.leb take option_map firstn].
+    destruct (eqb_bytes [13; 10] [a; b]); [|reflexivity].
+    apply bump_help_advance; [rewrite E; cbn [length]; lia|].
+    intros F. exfalso. destruct e; vm_compute in F; discriminate.
+Qed.
+
+Lemma nth_error_skipn0 (A : Type) : forall k (l : list A), nth_error (skipn k l) 0 = nth_error l k.
+Proof. induction k as [|k IH]; intros [|x l]; cbn [skipn nth_error]; try reflexivity. apply IH. Qed.
+
+Lemma advance_rest ch n c : rest (advance ch n c) = skipn n (rest c).
+Proof. reflexivity. Qed.
+
+Lemma skipn_skipn_add (A : Type) : forall a b (l : list A), skipn b (skipn a l) = skipn (a + b) l.
+Proof.
+  induction a as [|a IH]; intros b l; [reflexivity|]. destruct l as [|x l]; [rewrite !skipn_nil; reflexivity|].
+  cbn [Nat.add skipn]. apply IH.
+Qed.
+
+Lemma http_chunk_tail e szf c k size :
+  (forall c', sz_ok (szf c') c') -> (k <= length (rest c))%nat ->
+  guard true c
+    (bind (crlf (eol_ch e) (advance (eol_ch e) k c)) (fun c2 =>
+     bind (chunk_data (eol_ch e) (szf c2 size) size c2) (fun c3 => crlf (eol_ch e) c3))) =
+  (if starts_with [13; 10] (skipn k (rest c))
+      && (size <=? N.of_nat (length (rest c) - (k + 2)))
+      && starts_with [13; 10] (skipn (k + 2 + N.to_nat size) (rest c))
+   then Res Ok (advance (eol_ch e) (k + 2 + N.to_nat size + 2) c) []
+   else Res Fail c []).
+Proof.
+  intros Hs Hk. rewrite crlf_exact, advance_rest.
+  destruct (starts_with [13; 10] (skipn k (rest c))); cbn [bind andb guard]; [|reflexivity].
+  rewrite advance_add.
+  rewrite (chunk_data_exact (eol_ch e) _ size _ (Hs _ size)). unfold chunk_data_spec, in_size.
+  rewrite advance_rest, skipn_length.
+  destruct (size <=? N.of_nat (length (rest c) - (k + 2))); cbn [bind prepend app andb guard]; [|reflexivity].
+  rewrite advance_add, crlf_exact, advance_rest.
+  destruct (starts_with [13; 10] (skipn (k + 2 + N.to_nat size) (rest c))); cbn [prepend app guard]; [|reflexivity].
+  rewrite advance_add. reflexivity.
+Qed.
+
+Lemma http_chunk_required_exact e szf c :
+  (forall c', sz_ok (szf c') c') -> Forall is_byte (rest c) ->
+  http_chunk_noext true (eol_ch e) szf c = http_chunk_spec (eol_ch e) c.
+Proof.
+  intros Hs Hb. unfold http_chunk_noext, http_chunk_spec.
+  rewrite (chunk_size_exact e (szf c) c (Hs c) Hb). unfold chunk_size_spec.
+  pose proof (run_len_le is_hex (rest c)) as RL.
+  set (k := run_len is_hex (rest c)) in *.
+  set (size := hex_value (firstn k (rest c)) mod 2 ^ 64).
+  destruct (0 <? k)%nat eqn:Ek.
+  - unfold peek_at. rewrite advance_rest, nth_error_skipn0.
+    pose proof (http_chunk_tail e szf c k size Hs RL) as T.
+    destruct (nth_error (rest c) k) as [b|]; [|rewrite T; reflexivity].
+    destruct b as [|p]; [rewrite T; reflexivity|].
+    do 6 (destruct p as [p|p|]; try (rewrite T; reflexivity)); try reflexivity.
+  - cbn [guard]. assert (k = O) as -> by lia. unfold size. cbn [firstn]. reflexivity.
+Qed.
